@@ -97,8 +97,11 @@ func observe(in *interpreter.Interpreter, preds [][2]any) map[string]any {
 			facts := []mgjson.Atom{}
 			if terms, err := in.Query(atom); err == nil {
 				for _, t := range terms {
-					if a, ok := t.(ast.Atom); ok {
+					switch a := t.(type) {
+					case ast.Atom:
 						facts = append(facts, mgjson.FromAtom(a))
+					case ast.TemporalAtom: // a fact from the temporal store (library clauses only use the eternal annotation)
+						facts = append(facts, mgjson.FromAtom(a.Atom))
 					}
 				}
 			}
